@@ -13,6 +13,7 @@ RULE = ("each case runs a structure that contains chosen interaction classes: cu
         "determinant were checked; distinct = distinct input digests."
         " Exception-mutant cases: whole proteins with a SER/THR next to a HIS ring nitrogen or CYS sulfur rewritten as CYS (buried CYS-HIS / CYS-CYS pairs). 30 % of all runs carry neutral extra options.")
 RULE = RULE + ' Round 8: ion records carry element and formal-charge columns in the spellings 2+, +2 and blank.'
+RULE = RULE + " Rounds 9-12: a Coulomb determinant needs a partner with a configured charge; ions sharing a residue number; the ion's row re-defined in the parameter file."
 ASSUMPTIONS = ["bounds are per conformation; AVR merges determinants with equal partner labels and is not bounded",
                "penalised (not reported) groups are outside the equal-and-opposite clause, as the statement says"]
 TIMEOUT = {"quick": 2400, "thorough": 14400}
